@@ -35,8 +35,11 @@ def run(bid, only=None):
         r = sh([os.path.join(VERIF, "check"), p, "--tier", "quick"], env=env, cwd=VERIF)
         lines = [l for l in r.stdout.splitlines() if l.startswith(("VIOLATION", "  what:", "OK ", "TOOL-FAILURE", "KNOWN-FINDING", "note: DIVERGENCE", "Traceback"))]
         out["results"][p] = {"exit": r.returncode, "wall_s": round(time.time() - t0, 1), "lines": lines[:12], "verdict": "quiet" if r.returncode == 0 else "ALARM"}
+        ap = os.path.join(bd, "alarm_%s.log" % p)
         if r.returncode != 0:
-            open(os.path.join(bd, "alarm_%s.log" % p), "w").write(r.stdout[-20000:])
+            open(ap, "w").write(r.stdout[-20000:])
+        elif os.path.exists(ap):
+            os.unlink(ap)
     for d in (scratch, scratch + "_evid", scratch + "_replays"):
         shutil.rmtree(d, ignore_errors=True)
     json.dump(out, open(os.path.join(bd, "result.json"), "w"), indent=1)
